@@ -1126,6 +1126,13 @@ class Engine:
             self.finish(st, "returned", rv)
             return "done"
         caller = st.frames[-1]
+        if fr.ret is not None and fr.ret[0] == "errgroup":
+            # function started by errgroup.Group.Go (run inline): remember the first error for Wait
+            key = ("errgroup_err", fr.ret[1])
+            if st.world.get(key) is None and rv is not None:
+                st.world[key] = rv
+            caller.i += 1
+            return None
         if fr.discard:
             return None  # deferred call: caller re-executes RunDefers
         cins = caller.fn["blocks"][caller.b]["instrs"][caller.i]
@@ -1159,6 +1166,9 @@ class Engine:
             try:
                 rv = intr(self, st, fr, args, ins)
             except (AttributeError, TypeError, KeyError, IndexError) as e:
+                if os.environ.get("VERIF_DEBUG"):
+                    import traceback
+                    traceback.print_exc()
                 # typically a nil argument on a path that is infeasible (unchecked arm); reported as unsupported and
                 # dropped by finish() when the path condition is unsatisfiable
                 raise Unsupported("model of %s failed: %s: %s" % (name, type(e).__name__, e))
